@@ -37,7 +37,7 @@ var props = map[string]propSpec{
 	"C12": {Engine: "world", QuickRuns: 3000, QuickSecs: 60, ThoroughS: 600, Components: worldComponents, MinReach: []string{"l5_tamper_judged"}},
 	"C13": {Engine: "world", Cover: []string{"C01.A2"}, QuickRuns: 3000, QuickSecs: 60, ThoroughS: 600, Components: worldComponents, MinReach: []string{"cross_host_cookie_refused"}},
 	"C14": {Engine: "world", QuickRuns: 3000, QuickSecs: 60, ThoroughS: 600, Components: worldComponents, MinReach: []string{"c14_load_refused"}},
-	"C17": {Engine: "sched", Cover: []string{"schedule|"}, QuickRuns: 20000, QuickSecs: 40, ThoroughS: 600, Components: schedComponents,
+	"C17": {Engine: "sched", Also: "world", AlsoRuns: 1500, Cover: []string{"schedule|", "C17"}, QuickRuns: 20000, QuickSecs: 40, ThoroughS: 600, Components: schedComponents,
 		MinReach: []string{"answer_from_cache", "partial_cache_fallback", "localcache_hit", "refresh_loop_started", "refresh_loop_already_running", "bounded_progress_checked", "porcupine_ok"}},
 	"C18": {Engine: "world", QuickRuns: 3000, QuickSecs: 60, ThoroughS: 600, Components: worldComponents, MinReach: []string{"https_redirect"}},
 	"C19": {Engine: "world", QuickRuns: 3000, QuickSecs: 60, ThoroughS: 600, Components: worldComponents, MinReach: []string{"signed_out", "signout_revoke_failed"}},
